@@ -17,7 +17,8 @@ from .serialization import (
     cell_to_parent,
     get_stride,
     is_first_child,
-    FIRST_HILBERT_RESOLUTION
+    FIRST_HILBERT_RESOLUTION,
+    HILBERT_START_BIT
 )
 from .cell_info import get_num_children
 
@@ -66,6 +67,16 @@ def uncompact(cells: List[int], target_resolution: int) -> List[int]:
     return result
 
 
+def _sort_key(cell: int) -> int:
+    """Sort key under which every sibling group is contiguous."""
+    # Resolution 0 ids hold the face in their top 6 bits, all finer ids hold 5 * face + segment.
+    # In plain numeric order face f therefore lands among the descendants of an unrelated
+    # resolution 1 cell, splitting up their sibling groups. Order it where its own segments are.
+    if get_resolution(cell) == 0:
+        return cell + ((4 * (cell >> HILBERT_START_BIT)) << HILBERT_START_BIT)
+    return cell
+
+
 def compact(cells: List[int]) -> List[int]:
     """
     Compacts a set of A5 cells by replacing complete groups of sibling cells with their parent cells.
@@ -80,7 +91,7 @@ def compact(cells: List[int]) -> List[int]:
         return []
 
     # Single sort and dedup
-    current_cells = sorted(set(cells))
+    current_cells = sorted(set(cells), key=_sort_key)
 
     # Compact until no more changes
     # No re-sorting needed - parents maintain sorted order!
